@@ -6,6 +6,9 @@ C07 development).
 -/
 import Rpft.Props.C07
 import Rpft.Lemmas.RowFlow
+import Rpft.Lemmas.RowShort
+import Rpft.Lemmas.RowMixed
+import Rpft.Lemmas.RowEnc
 set_option linter.unusedSimpArgs false
 set_option linter.unusedVariables false
 namespace Rpft.Props.C09
@@ -13,16 +16,48 @@ open Rpft Rpft.Row Rpft.Props.C07
 
 /-! ### spread vs packed -/
 
-/-- general statement: the parsed row does not depend on the (admissible) layout -/
-def layout_independent_full : Prop :=
-  ∀ (fs : List Field) (l₁ l₂ : Layout) (v : Val) (c₁ c₂ : Out),
-    wfFieldNames fs = true → Representable (plainTop fs) v = true →
-    Admissible { top := plainTop fs } l₁ = true → Admissible { top := plainTop fs } l₂ = true →
-    AnySpreadOk { top := plainTop fs } l₁ v = true → AnySpreadOk { top := plainTop fs } l₂ v = true →
-    unparseRow { top := plainTop fs } l₁ v = .ok c₁ → unparseRow { top := plainTop fs } l₂ v = .ok c₂ →
-    parseRow { top := plainTop fs } c₁ = parseRow { top := plainTop fs } c₂
+/-- **Layout independence (general)**: for every row model of the family `goodTop` (any
+nesting, remapped headers), any two layouts that are `LayoutOk` for the value give rows that
+parse equally — a list as `f.1, f.2, …` or one `f` cell, a sub-record as `f.a, f.b` or one
+cell, list elements packed or spread one by one, at every depth.  Corollary of
+`C07.parse_unparse`. -/
+theorem layout_independent (sch : Schema) (l₁ l₂ : Layout) (v : Val) (c₁ c₂ : Out)
+    (hg : goodTop sch.top = true) (hr : Representable sch.top v = true)
+    (h₁ : LayoutOk sch l₁ v = true) (h₂ : LayoutOk sch l₂ v = true)
+    (r₁ : RemapConsistent sch l₁ v = true) (r₂ : RemapConsistent sch l₂ v = true)
+    (hc₁ : unparseRow sch l₁ v = .ok c₁) (hc₂ : unparseRow sch l₂ v = .ok c₂) :
+    parseRow sch c₁ = parseRow sch c₂ := by
+  obtain ⟨d₁, e₁, p₁⟩ := parse_unparse sch l₁ v hg hr h₁ r₁
+  obtain ⟨d₂, e₂, p₂⟩ := parse_unparse sch l₂ v hg hr h₂ r₂
+  rw [hc₁] at e₁; rw [hc₂] at e₂
+  cases e₁; cases e₂
+  rw [p₁, p₂]
 
-/-- **Layout independence** (corollary of C07 for its proved family): a list given as
+/-- the same for flow rows (`FlowRowModel` with its remapped headers) -/
+theorem layout_independent_flow (l₁ l₂ : Layout) (kvs : List (Str × Val)) (c₁ c₂ : Out)
+    (hr : Representable flowRowSchema.top (.model kvs) = true) (hm : flowMainOk kvs = true)
+    (h₁ : LayoutOk flowRowSchema l₁ (.model kvs) = true)
+    (h₂ : LayoutOk flowRowSchema l₂ (.model kvs) = true)
+    (hc₁ : unparseRow flowRowSchema l₁ (.model kvs) = .ok c₁)
+    (hc₂ : unparseRow flowRowSchema l₂ (.model kvs) = .ok c₂) :
+    parseRow flowRowSchema c₁ = parseRow flowRowSchema c₂ := by
+  obtain ⟨d₁, e₁, p₁⟩ := flow_row_roundtrip l₁ kvs hr h₁ hm
+  obtain ⟨d₂, e₂, p₂⟩ := flow_row_roundtrip l₂ kvs hr h₂ hm
+  rw [hc₁] at e₁; rw [hc₂] at e₂
+  cases e₁; cases e₂
+  rw [p₁, p₂]
+
+/-- non-vacuity: the deep example of C07 in two layouts gives two different rows (19 and 15
+cells) that parse to the same value; the flow row example likewise -/
+example :
+    (match unparseRow exDeepSch exDeepLays[0]! exDeepVal, unparseRow exDeepSch exDeepLays[2]! exDeepVal with
+      | .ok c₁, .ok c₂ => c₁.length != c₂.length && (match parseRow exDeepSch c₁, parseRow exDeepSch c₂ with
+        | .ok a, .ok b => a == b
+        | _, _ => false)
+      | _, _ => false) = true := by decide +kernel
+
+/-- **Layout independence, first round** (corollary of C07's `parse_unparse_partial`, with the
+static `Admissible`): a list given as
 `f.1, f.2, …` or as one `f` cell, a sub-record given as `f.a, f.b` or as one cell — per
 field independently — parse to the same row. -/
 theorem layout_independent_partial (fs : List Field) (l₁ l₂ : Layout) (v : Val) (c₁ c₂ : Out)
@@ -180,44 +215,207 @@ theorem edgeLeaves_are_the_long_forms :
 theorem star_element_eq_indexed_cell (k : Nat) (b : Str) (hb : b ∈ edgeLeaves) (out : Tree)
     (x t : Str) (h : parseAsString t = .ok x) :
     parseEntry flowRowTy out (idxKey k b, Sum.inr (.atom x)) =
-    parseEntry flowRowTy out (idxKey k b, Sum.inl t) := by
-  apply parseEntry_star_eq_cell flowRowTy out _ x t h
-  have hbk : ∀ c ∈ b, keyChar c = true ∧ True := by
-    simp only [edgeLeaves, List.mem_cons, List.not_mem_nil, or_false] at hb
-    rcases hb with rfl | rfl | rfl | rfl | rfl <;> decide
-  have hkey : ∀ c ∈ idxKey k b, keyChar c = true := by
-    intro c hc
-    simp only [idxKey, List.mem_append, List.mem_cons] at hc
-    rcases hc with h | rfl | h | rfl | h
-    · revert c; decide
-    · decide
-    · exact printNat_keyChar k c h
-    · decide
-    · exact (hbk c h).1
-  rw [getFieldName_key _ hkey]
-  simp only [idxKey]
-  rw [splitDot_append edgesS _ (by decide), splitDot_append _ _ (printNat_no_dot k)]
-  intro lt hlt
-  simp only [edgeLeaves, List.mem_cons, List.not_mem_nil, or_false] at hb
-  rcases hb with rfl | rfl | rfl | rfl | rfl
-  all_goals
-    have : lt = Ty.str := by
-      have e : some lt = some Ty.str := hlt.symm.trans rfl
-      exact Option.some.inj e
-    subst this
-    rfl
+    parseEntry flowRowTy out (idxKey k b, Sum.inl t) :=
+  star_elem_eq_cell k b hb out x t h
+
+/-! ### whole rows: short headers and `*` columns = the fully indexed row -/
+
+/-- the fully indexed form of a flow row: headers renamed by the context remap
+(`from` ↦ `edges.*.from_`, `message_text` ↦ the main argument of the row type, …), then
+every `*` column split into one column per element (`edges.1.from_`, `edges.2.from_`, …; a
+single value broadcast to the longest list with the same prefix) -/
+def indexedOf (d : List (Str × Str)) : List (Str × Str) :=
+  match rekey flowRowSchema d with
+  | .ok d1 =>
+    match preParse d1 with
+    | .ok cols => indexedRow cols
+    | .error _ => []
+  | .error _ => []
+
+/-- the rows covered: the header remap succeeds (a `message_text` column needs a known row
+type); the `*` columns are those the short headers stand for (`edges.*.b`, `b` a string leaf of
+an edge) and hold one string or a flat list of strings; the indexed columns are pairwise
+different (the indexed row is a row, i.e. a Python `dict`) -/
+def shortRowOk (d : List (Str × Str)) : Bool :=
+  match rekey flowRowSchema d with
+  | .ok d1 =>
+    match preParse d1 with
+    | .ok cols => flowStarOk cols && decide (((indexedRow cols).map Prod.fst).Nodup)
+    | .error _ => false
+  | .error _ => false
+
+/-- **Short row = fully indexed row**, as ONE statement about whole rows: a flow row given
+with short headers and `*` columns (any mixture with long and plain headers, any cell texts,
+any number of edges) parses exactly like its fully indexed form, whose headers are all long,
+`*`-free and untouched by the context remap.  Composes `short_eq_long`,
+`message_text_eq_main_arg`, `asterisk_expand`, `asterisk_broadcast` and
+`star_element_eq_indexed_cell` through the fold of `parse_row`. -/
+theorem short_row_eq_indexed_row (d : List (Str × Str)) (h : shortRowOk d = true) :
+    parseRow flowRowSchema d = parseRow flowRowSchema (indexedOf d) ∧
+    ∀ kv ∈ indexedOf d, hasStar kv.1 = false ∧
+      ctxRemap flowRowSchema (indexedOf d) kv.1 = .ok kv.1 := by
+  unfold shortRowOk at h
+  unfold indexedOf
+  cases h1 : rekey flowRowSchema d with
+  | error e => simp [h1] at h
+  | ok d1 =>
+    simp only [h1] at h ⊢
+    cases h2 : preParse d1 with
+    | error e => simp [h2] at h
+    | ok cols =>
+      simp only [h2, Bool.and_eq_true, decide_eq_true_eq] at h ⊢
+      exact flow_short_eq_indexed d d1 cols h1 h2 h.1 h.2
+
+def exShortRow : List (Str × Str) :=
+  [("type".toList, "send_message".toList), ("from".toList, "start".toList),
+   ("condition".toList, "a\\|x|b".toList), ("condition_type".toList, "has_phrase".toList),
+   ("message_text".toList, "hi; there".toList), ("_nodeId".toList, "n1".toList)]
+
+/-- non-vacuity: a short row with two edges (one broadcast `from`, a two-element `condition`
+with an escaped separator, a broadcast `condition_type`) is covered, and its indexed form is
+the expected row -/
+example : shortRowOk exShortRow = true ∧
+    indexedOf exShortRow =
+      [("type".toList, "send_message".toList),
+       ("edges.1.from_".toList, "start".toList), ("edges.2.from_".toList, "start".toList),
+       ("edges.1.condition.value".toList, "a|x".toList), ("edges.2.condition.value".toList, "b".toList),
+       ("edges.1.condition.type".toList, "has_phrase".toList),
+       ("edges.2.condition.type".toList, "has_phrase".toList),
+       ("mainarg_message_text".toList, "hi; there".toList), ("node_uuid".toList, "n1".toList)] ∧
+    (parseRow flowRowSchema exShortRow).toOption.isSome = true := by decide +kernel
+
+/-- the `*` columns must be string leaves: an element of `edges.*.condition` is taken as ONE
+value, the cell `edges.1.condition` with the same text is split again -/
+theorem short_row_needs_string_leaves :
+    let d := [("type".toList, "send_message".toList), ("edges.*.condition".toList, "a\\;b|c".toList)]
+    shortRowOk d = false ∧
+    (match parseRow flowRowSchema d, parseRow flowRowSchema (indexedOf d) with
+      | .ok a, .ok b => a != b
+      | _, _ => false) = true := by decide +kernel
+
+/-- the `*` cells must be flat: an element that is itself a list is not a string cell -/
+theorem short_row_needs_flat_star_cells :
+    let d := [("type".toList, "send_message".toList), ("from".toList, "a;b|c".toList)]
+    shortRowOk d = false ∧ (parseRow flowRowSchema d).toOption.isSome = false ∧
+    (parseRow flowRowSchema (indexedOf d)).toOption.isSome = true := by decide +kernel
 
 /-! ### positional vs keyword records -/
 
-/-- general statement: every positional / keyword / mixed encoding of a record (of any
-field types, at any nesting) decodes to the same value when no kwarg ambiguity arises -/
-def positional_eq_keyword_full : Prop :=
-  ∀ (ty : Ty) (v : Val) (pos kw : Cell.Nested) (tp tk : Str),
-    reprOk false ty v = true → toNested ty v = .ok kw →
-    joinPacked kw = .ok tk → joinPacked pos = .ok tp →
-    -- `pos` = values of the leading fields in order, recursively; no entry and no 2-entry
-    -- record of `pos` is a (field name, value) pair
-    readCell ty tp = readCell ty tk
+def kwSub0 : List Field :=
+  [("word".toList, .str, some (.str [])), ("number".toList, .int, some (.int 0))]
+
+/-- **Positional = keyword = mixed, in general** (the statement that was
+`positional_eq_keyword_full`): `Enc ty v pv` says that the parsed cell value `pv` — strings
+and nested lists, what `CellParser.parse` returns or what a `*` column / spread layout
+delivers — is AN encoding of `v : ty`: lists element by element (or a single value), records
+by entries that are each positional (at the index of their field) or `key;value` (any field,
+the key remapped by `header_name_to_field_name`), every field at most once and the others at
+their defaults, entries being encodings of the field values in turn — to any depth (a
+sub-record or a list given positionally inside a record, a list of records, …); with the
+side condition that no positional entry and not the whole value looks like a `key;value` pair
+(the keyword-first rule of `assign_value`, finding F-C09-a).  Any two encodings of the same
+value decode equally — to the value.  By rule induction on `Enc`. -/
+theorem positional_eq_keyword {ty : Ty} {v : Val} {pv₁ pv₂ : PV}
+    (h₁ : Enc ty v pv₁) (h₂ : Enc ty v pv₂) :
+    decode ty pv₁ = decode ty pv₂ ∧ decode ty pv₁ = .ok v :=
+  enc_decode_eq h₁ h₂
+
+/-- the same on cell texts -/
+theorem positional_eq_keyword_cells {ty : Ty} {v : Val} {t₁ t₂ : Str} {pv₁ pv₂ : PV}
+    (c₁ : cellParse t₁ = .ok pv₁) (c₂ : cellParse t₂ = .ok pv₂)
+    (h₁ : Enc ty v pv₁) (h₂ : Enc ty v pv₂) :
+    readCell ty t₁ = readCell ty t₂ ∧ readCell ty t₁ = .ok v := by
+  have := enc_decode_eq h₁ h₂
+  have e₁ : readCell ty t₁ = decode ty pv₁ := by
+    simp only [readCell, decode, c₁]; cases assignValue ty pv₁ <;> rfl
+  have e₂ : readCell ty t₂ = decode ty pv₂ := by
+    simp only [readCell, decode, c₂]; cases assignValue ty pv₂ <;> rfl
+  rw [e₁, e₂]
+  exact this
+
+def exOuter : List Field :=
+  [("a".toList, .str, some (.str [])),
+   ("s".toList, plainTop kwSub0, some (.model [("word".toList, .str []), ("number".toList, .int 0)])),
+   ("xs".toList, .list .str, some (.list []))]
+def exOuterVal : Val :=
+  .model [("a".toList, .str "v".toList),
+    ("s".toList, .model [("word".toList, .str "x".toList), ("number".toList, .int 7)]),
+    ("xs".toList, .list [])]
+
+/-- non-vacuity of `positional_eq_keyword`: `Outer(a="v", s=Sub(word="x", number=7))` — the
+sub-record given positionally inside the positional record (`v|x;7`) and given by keyword with
+its own fields by keyword (`s;(number;7|word;x)|a;v`, three levels: not a cell, but what
+spread `*` columns deliver) are both encodings -/
+example :
+    Enc (plainTop exOuter) exOuterVal
+      (.list [.atom "v".toList, .list [.atom "x".toList, .atom "7".toList]]) ∧
+    Enc (plainTop exOuter) exOuterVal
+      (.list [.list [.atom "s".toList, .list [.list [.atom "number".toList, .atom "7".toList],
+        .list [.atom "word".toList, .atom "x".toList]]], .list [.atom "a".toList, .atom "v".toList]]) := by
+  let fA : Field := ("a".toList, .str, some (.str []))
+  let fS : Field := ("s".toList, plainTop kwSub0,
+    some (.model [("word".toList, .str []), ("number".toList, .int 0)]))
+  let fW : Field := ("word".toList, .str, some (.str []))
+  let fN : Field := ("number".toList, .int, some (.int 0))
+  let sv : Val := .model [("word".toList, .str "x".toList), ("number".toList, .int 7)]
+  have hW : Enc Ty.str (.str "x".toList) (.atom "x".toList) := Enc.basic (v := .str "x".toList) rfl (by decide)
+  have hN : Enc Ty.int (.int 7) (.atom "7".toList) := Enc.basic (v := .int 7) rfl (by decide)
+  have hA : Enc Ty.str (.str "v".toList) (.atom "v".toList) := Enc.basic (v := .str "v".toList) rfl (by decide)
+  -- the sub-record, positionally and by keyword
+  have hSpos : Enc (plainTop kwSub0) sv (.list [.atom "x".toList, .atom "7".toList]) :=
+    Enc.model (sfs := kwSub0) (h2f := []) (f2h := [])
+      [⟨false, [], fW, .str "x".toList, .atom "x".toList⟩, ⟨false, [], fN, .int 7, .atom "7".toList⟩]
+      rfl (by decide) (by intro e he; simp at he; rcases he with rfl | rfl <;> simp [kwSub0, fW, fN])
+      ⟨fun _ => rfl, fun _ => rfl, trivial⟩ (by decide)
+      (by intro e he; simp at he; rcases he with rfl | rfl; exact hW; exact hN)
+      (by intro e he; simp at he; rcases he with rfl | rfl <;> simp)
+      (by intro e he; simp at he; rcases he with rfl | rfl <;> simp [tryKwarg])
+      (by decide)
+      (by intro p hp; simp [kwSub0] at hp; rcases hp with rfl | rfl
+          · exact Or.inl ⟨⟨false, [], fW, .str "x".toList, .atom "x".toList⟩, by simp, rfl⟩
+          · exact Or.inl ⟨⟨false, [], fN, .int 7, .atom "7".toList⟩, by simp, rfl⟩)
+  have hSkw : Enc (plainTop kwSub0) sv (.list [.list [.atom "number".toList, .atom "7".toList],
+      .list [.atom "word".toList, .atom "x".toList]]) :=
+    Enc.model (sfs := kwSub0) (h2f := []) (f2h := [])
+      [⟨true, "number".toList, fN, .int 7, .atom "7".toList⟩, ⟨true, "word".toList, fW, .str "x".toList, .atom "x".toList⟩]
+      rfl (by decide) (by intro e he; simp at he; rcases he with rfl | rfl <;> simp [kwSub0, fW, fN])
+      ⟨fun h => by simp at h, fun h => by simp at h, trivial⟩ (by decide)
+      (by intro e he; simp at he; rcases he with rfl | rfl; exact hN; exact hW)
+      (by intro e he; simp at he; rcases he with rfl | rfl <;> intro _ <;> rfl)
+      (by intro e he; simp at he; rcases he with rfl | rfl <;> simp)
+      (by decide)
+      (by intro p hp; simp [kwSub0] at hp; rcases hp with rfl | rfl
+          · exact Or.inl ⟨⟨true, "word".toList, fW, .str "x".toList, .atom "x".toList⟩, by simp, rfl⟩
+          · exact Or.inl ⟨⟨true, "number".toList, fN, .int 7, .atom "7".toList⟩, by simp, rfl⟩)
+  constructor
+  · exact Enc.model (sfs := exOuter) (h2f := []) (f2h := [])
+      [⟨false, [], fA, .str "v".toList, .atom "v".toList⟩,
+       ⟨false, [], fS, sv, .list [.atom "x".toList, .atom "7".toList]⟩]
+      rfl (by decide) (by intro e he; simp at he; rcases he with rfl | rfl <;> simp [exOuter, exOuterVal, fA, fS, sv])
+      ⟨fun _ => rfl, fun _ => rfl, trivial⟩ (by decide)
+      (by intro e he; simp at he; rcases he with rfl | rfl; exact hA; exact hSpos)
+      (by intro e he; simp at he; rcases he with rfl | rfl <;> simp)
+      (by intro e he; simp at he; rcases he with rfl | rfl <;> intro _ <;> decide)
+      (by decide)
+      (by intro p hp; simp [exOuter, exOuterVal] at hp; rcases hp with rfl | rfl | rfl
+          · exact Or.inl ⟨⟨false, [], fA, .str "v".toList, .atom "v".toList⟩, by simp, rfl⟩
+          · exact Or.inl ⟨⟨false, [], fS, sv, .list [.atom "x".toList, .atom "7".toList]⟩, by simp, rfl⟩
+          · exact Or.inr rfl)
+  · exact Enc.model (sfs := exOuter) (h2f := []) (f2h := [])
+      [⟨true, "s".toList, fS, sv, .list [.list [.atom "number".toList, .atom "7".toList],
+          .list [.atom "word".toList, .atom "x".toList]]⟩,
+       ⟨true, "a".toList, fA, .str "v".toList, .atom "v".toList⟩]
+      rfl (by decide) (by intro e he; simp at he; rcases he with rfl | rfl <;> simp [exOuter, exOuterVal, fA, fS, sv])
+      ⟨fun h => by simp at h, fun h => by simp at h, trivial⟩ (by decide)
+      (by intro e he; simp at he; rcases he with rfl | rfl; exact hSkw; exact hA)
+      (by intro e he; simp at he; rcases he with rfl | rfl <;> intro _ <;> rfl)
+      (by intro e he; simp at he; rcases he with rfl | rfl <;> simp)
+      (by decide)
+      (by intro p hp; simp [exOuter, exOuterVal] at hp; rcases hp with rfl | rfl | rfl
+          · exact Or.inl ⟨⟨true, "a".toList, fA, .str "v".toList, .atom "v".toList⟩, by simp, rfl⟩
+          · exact Or.inl ⟨⟨true, "s".toList, fS, sv, .list [.list [.atom "number".toList, .atom "7".toList],
+              .list [.atom "word".toList, .atom "x".toList]]⟩, by simp, rfl⟩
+          · exact Or.inr rfl)
 
 /-- **Positional = keyword** for records of basic-typed fields: the cell `v1|…|vm` with the
 values of the first `m` fields (the remaining fields at their defaults) decodes to the same
@@ -261,6 +459,61 @@ theorem positional_eq_keyword_partial {sfs : List Field} {skvs : List (Str × Va
     simp only [List.nil_append, Option.getD_some]
     exact validate_sub D
 
+/-- the key/value cell written by `unparse` for a record of basic fields decodes to the record -/
+theorem keyword_cell_reads {sfs : List Field} {skvs : List (Str × Val)}
+    (hfam : subFamily sfs = true)
+    (hr : reprOk false (plainTop sfs) (.model skvs) = true)
+    (hfo : fieldOk false (plainTop sfs) (.model skvs) = true) :
+    readCell (plainTop sfs)
+      (Cell.joinCell (.list (((sfs.zip (skvs.map Prod.snd)).filter nonDefault).map subElem))) =
+        .ok (.model skvs) := by
+  obtain ⟨D⟩ := subData_of_repr hfam hr hfo
+  rw [← D.hpairs]
+  have hokf := subOk_filter D.hok
+  have hndall : ∀ p ∈ D.pairs.filter nonDefault, nonDefault p = true :=
+    fun p hp => (List.mem_filter.mp hp).2
+  obtain ⟨hwf, hcok⟩ := wfCell_pairs D.hne hokf hndall
+    (fun p hp => D.hfok p (List.mem_filter.mp hp).1 (hndall p hp))
+  unfold readCell
+  rw [cellParse_joinCell hwf hcok]
+  have hpv : PV.ofCell (.list ((D.pairs.filter nonDefault).map subElem)) =
+      .list ((D.pairs.filter nonDefault).map subEntry) := by
+    simp [PV.ofCell, List.map_map, PV.ofElem, subElem, subEntry, Function.comp]
+  simp only [hpv, assignValue, assignModel, tryKwarg_pairs_none]
+  rw [assignEntries_kw sfs skvs _ _ [] hokf hndall (fun p _ => rfl)]
+  simp only [List.nil_append, Option.getD_some]
+  exact validate_sub D
+
+/-- **Mixed positional / keyword = keyword** for records of basic-typed fields: a cell whose
+`i`-th entry is either the plain value of the `i`-th field (`MEntry.pos`; the index counts the
+keyword entries too, as `enumerate` does) or a `name;value` pair for ANY field (`MEntry.kw`),
+every field given at most once and the fields not given at their defaults, decodes to the
+same record as the key/value cell written by `unparse` — namely to the record itself —
+whenever the whole-cell keyword rule does not fire (`UnambiguousM`).  All-positional and
+all-keyword cells are the special cases. -/
+theorem mixed_eq_keyword {sfs : List Field} {skvs : List (Str × Val)}
+    (hfam : subFamily sfs = true)
+    (hr : reprOk false (plainTop sfs) (.model skvs) = true)
+    (hfo : fieldOk false (plainTop sfs) (.model skvs) = true)
+    (es : List MEntry) (hne : es ≠ [])
+    (hmem : ∀ e ∈ es, e.pair ∈ sfs.zip (skvs.map Prod.snd))
+    (hat : PosAt sfs 0 es) (hndE : (es.map (·.pair.1.1)).Nodup)
+    (hok : ∀ e ∈ es, reprOk false e.pair.1.2.1 e.pair.2 = true)
+    (hkwnb : ∀ p, MEntry.kw p ∈ es → printBasic p.2 ≠ [])
+    (hlast : ∀ p, es.getLast? = some (.pos p) → printBasic p.2 ≠ [])
+    (hrest : ∀ p ∈ sfs.zip (skvs.map Prod.snd), (∃ e ∈ es, e.pair = p) ∨ p.1.2.2 = some p.2)
+    (hun : UnambiguousM sfs es = true) :
+    readCell (plainTop sfs) (Cell.joinCell (.list (es.map (·.elem)))) =
+      readCell (plainTop sfs)
+        (Cell.joinCell (.list (((sfs.zip (skvs.map Prod.snd)).filter nonDefault).map subElem))) ∧
+    readCell (plainTop sfs) (Cell.joinCell (.list (es.map (·.elem)))) = .ok (.model skvs) := by
+  have hnames : skvs.map Prod.fst = sfs.map (·.1) := by
+    simp only [reprOk, Bool.and_eq_true, decide_eq_true_eq] at hr
+    exact hr.1.1
+  have h1 := readCell_mixed es hnames hfam hne hmem hat hndE hok hkwnb hlast hrest
+    (tryKwarg_of_unambiguousM sfs es hun)
+  exact ⟨by rw [h1, keyword_cell_reads hfam hr hfo], h1⟩
+
 def kwSub : List Field :=
   [("word".toList, .str, some (.str [])), ("number".toList, .int, some (.int 0))]
 
@@ -289,6 +542,36 @@ example :
     readsAs (plainTop kwSub) "x\\|y|5".toList
       (.model [("word".toList, .str "x|y".toList), ("number".toList, .int 5)]) = true ∧
     Unambiguous kwSub ["x|y".toList, "5".toList] = true := by decide +kernel
+
+/-- non-vacuity of `mixed_eq_keyword`: `Sub(word="x|y", number=5)` as `x\|y|number;5`
+(positional then keyword); `Sub4(q=7, z="end")` as `z;end|7` (keyword first, then the value
+of the field at index 1) -/
+example :
+    readsAs (plainTop kwSub) "x\\|y|number;5".toList
+      (.model [("word".toList, .str "x|y".toList), ("number".toList, .int 5)]) = true ∧
+    readsAs (plainTop exSub) "z;end|7".toList
+      (.model [("p".toList, .str []), ("q".toList, .int 7), ("w".toList, .bool false),
+        ("z".toList, .str "end".toList)]) = true := by decide +kernel
+
+/-- `UnambiguousM` is needed: `number|number;5` (positional `word="number"`, keyword
+`number=5`) is taken as the ONE keyword argument `number=[number,5]` -/
+theorem mixed_needs_UnambiguousM :
+    UnambiguousM kwSub [.pos (("word".toList, .str, some (.str [])), .str "number".toList),
+      .kw (("number".toList, .int, some (.int 0)), .int 5)] = false ∧
+    readsAs (plainTop kwSub) "number|number;5".toList
+      (.model [("word".toList, .str "number".toList), ("number".toList, .int 5)]) = false := by
+  decide +kernel
+
+/-- the entry-level side condition is needed (finding F-C09-a again): in `v|a;y` the entry
+`a;y`, meant as the sub-record `Sub(word="a", number=…)` given positionally, is taken as the
+keyword argument `a="y"` of the outer record; the cell `v|x;7` of the example decodes as
+intended -/
+theorem positional_entry_needs_unambiguous :
+    readsAs (plainTop exOuter) "v|x;7".toList exOuterVal = true ∧
+    readsAs (plainTop exOuter) "v|a;7".toList
+      (.model [("a".toList, .str "v".toList),
+        ("s".toList, .model [("word".toList, .str "a".toList), ("number".toList, .int 7)]),
+        ("xs".toList, .list [])]) = false := by decide +kernel
 
 /-! ### column order -/
 
